@@ -30,6 +30,7 @@ RULES = {
     "C07-R3": "text: writer wraps in and doubles '\"'; reader un-doubles exactly the delimiter of its token class",
     "C07-R4": "block header always has >= 1 length digit (never '#0'); the reader demands a non-zero digit count",
     "C07-R6": "floating results are emitted with 15 (double) / 6 (float) significant digits in %g style (shared with C16-G1); the own formatter reports its decimal exponent through its out-parameter (C16-G4)",
+    "C07-R7": "reader side: each width/sign decodes with the matching libc converter whose result is stored unmodified (shared with C04-N4)",
     "C07-R5": "result buffers hold the longest text their format can produce (no silent truncation)",
 }
 
@@ -398,6 +399,9 @@ def run(ck, fb, tier):
             from . import c13
             from .lexmodel import LexModel
             c13.rule_t4(K.RuleProxy(ck, {"C13-T4": "C07-R3"}), prog, S, LexModel(prog, S), only=("isascii7bit", "skipQuoteProgramData"))
+        if cfg == "A" or tier == "thorough":
+            from . import c04
+            c04.rule_n4(K.RuleProxy(ck, {"C04-N4": "C07-R7"}), prog, K.load_spec("units_488_2.json"))
         from . import c16
         px = K.RuleProxy(ck, {"C16-G1": "C07-R6", "C16-G4": "C07-R6"})
         c16.rule_g1(px, prog, cfg)
